@@ -49,7 +49,7 @@ void ldb_log(ldb_logger_t *logger, const char *fmt, ...) { }
 const char *ldb_strerror(int code) { return "e"; }
 uint64_t ldb_versions_new_file_number(ldb_versions_t *vset) { g_table_number = g_next_file; return g_next_file++; }
 int ldb_rb_set64_put(rb_tree_t *tree, uint64_t item) { __CPROVER_assert(tree == &g_db->pending_outputs && item == g_table_number, "the new table's number is protected in pending_outputs"); g_pending_has = 1; g_pending_puts++; return 1; }
-int ldb_rb_set64_del(rb_tree_t *tree, uint64_t item) { __CPROVER_assert(tree == &g_db->pending_outputs && item == g_table_number, "pending_outputs entry released"); g_pending_has = 0; g_pending_dels++; return 1; }
+int ldb_rb_set64_del(rb_tree_t *tree, uint64_t item) { __CPROVER_assert(tree == &g_db->pending_outputs && item == g_table_number, "pending_outputs entry released"); g_pending_has = 0; g_pending_dels++; if (g_build_calls && g_build_rc == LDB_OK && g_build_size > 0) g_unprotected_outputs++; return 1; }
 ldb_iter_t *ldb_memiter_create(const ldb_memtable_t *mt) { __CPROVER_assert(mt == (g_mode_recover ? &g_rmem_obj : &g_imm_obj), "the flush reads the immutable (or recovered) memtable"); g_iter_creates++; return &g_iter_obj; }
 void ldb_iter_destroy(ldb_iter_t *it) { g_iter_destroys++; }
 void ldb_filemeta_init(ldb_filemeta_t *meta) { meta->refs = 0; meta->allowed_seeks = (1 << 30); meta->number = 0; meta->file_size = 0; meta->smallest.data = NULL; meta->smallest.size = 8; meta->largest.data = NULL; meta->largest.size = 8; }
@@ -91,7 +91,7 @@ int ldb_versions_apply(ldb_versions_t *vset, ldb_edit_t *edit, ldb_mutex_t *mu) 
   g_held = 0; g_held = 1;
   g_apply_rc = nondet_int();
   g_t_apply = tick();
-  if (g_apply_rc == LDB_OK) g_gc_allowed = 1;
+  if (g_apply_rc == LDB_OK) { g_gc_allowed = 1; if (g_addfile_calls) g_unprotected_outputs = 0; /* the installed version names the table */ }
   return g_apply_rc;
 }
 
@@ -104,7 +104,7 @@ static ldb_t *setup_db(void) {
   g_db = db; db->versions = &g_versions; g_versions.current = &g_base_obj;
   g_held = 1; g_locks = 1; g_unlocks = 0; g_clock = 0;
   g_pending_has = 0; g_pending_puts = g_pending_dels = 0; g_build_calls = 0; g_pick_calls = 0; g_addfile_calls = 0; g_apply_calls = 0;
-  g_imm_unrefs = g_base_refs = g_base_unrefs = g_iter_creates = g_iter_destroys = 0; g_broadcasts = 0; g_gc_allowed = 0; g_gc_calls = 0; g_sched_calls = 0; g_copied_pending = 0; g_added_versions = 0;
+  g_imm_unrefs = g_base_refs = g_base_unrefs = g_iter_creates = g_iter_destroys = 0; g_broadcasts = 0; g_gc_allowed = 0; g_unprotected_outputs = 0; g_gc_calls = 0; g_sched_calls = 0; g_copied_pending = 0; g_added_versions = 0;
   g_t_build = g_t_apply = g_t_gc = 0; g_mode_recover = 0;
   __CPROVER_assume(g_next_file < (1ull << 60));
   __CPROVER_assume(g_len >= -1 && g_k >= 0 && (g_len <= 0 || g_k < g_len));
